@@ -227,6 +227,13 @@ Proof.
   - rewrite E. reflexivity.
 Qed.
 
+Lemma reg_keeps_row : forall st v o n s l u r,
+  find_row u (s_rows st) = Some r -> find_row u (s_rows (step st (HRegister v o n s l))) = Some r.
+Proof.
+  intros st v o n s l u r Fr. simpl. destruct (srv_register v o n s l st) as [[st' u']|] eqn:R; [|exact Fr].
+  unfold srv_register in R. inv_bind R. injection R as <- <-. simpl. apply find_row_app_old. exact Fr.
+Qed.
+
 Lemma run_row : forall u r0 h st b,
   Forall (not_destroying u) h ->
   find_row u (s_rows st) = Some (rowb r0 b) ->
@@ -234,12 +241,10 @@ Lemma run_row : forall u r0 h st b,
 Proof.
   intros u r0. induction h as [|x h IH]; intros st b Nd Fr; simpl.
   - rewrite orb_false_r. exact Fr.
-  - inversion Nd; subst. destruct x as [v o n s' l| |u'|u'| |]; simpl.
-    + rewrite (IH _ b H2); [reflexivity|].
-      destruct (srv_register v o n s' l st) as [[st' u']|] eqn:R; [|exact Fr].
-      unfold srv_register in R. inv_bind R. injection R as <- <-. simpl. apply find_row_app_old. exact Fr.
-    + rewrite (IH _ b H2); [reflexivity|exact Fr].
-    + destruct (u' =? u) eqn:Eu.
+  - inversion Nd; subst. destruct x as [v o n s' l| |u'|u'| | |k v o n mat l|v o n fu mu fr mr lc lu lr].
+    + simpl acted. rewrite (IH _ b H2); [reflexivity|]. apply reg_keeps_row. exact Fr.
+    + simpl. rewrite (IH _ b H2); [reflexivity|exact Fr].
+    + simpl. destruct (u' =? u) eqn:Eu.
       * apply Z.eqb_eq in Eu. subst u'. rewrite (IH _ true H2).
         -- rewrite orb_true_r. reflexivity.
         -- simpl. rewrite find_update_row. rewrite Fr. rewrite Z.eqb_refl.
@@ -247,9 +252,14 @@ Proof.
            destruct b; simpl; [apply activate_row_idem|reflexivity].
       * rewrite (IH _ b H2); [reflexivity|].
         simpl. rewrite find_update_row. rewrite Fr. rewrite Z.eqb_sym in Eu. rewrite Eu. reflexivity.
-    + rewrite (IH _ b H2); [reflexivity|]. simpl. rewrite find_remove_row by (simpl in H1; congruence). exact Fr.
-    + rewrite (IH _ b H2); [reflexivity|exact Fr].
-    + rewrite (IH _ b H2); [reflexivity|exact Fr].
+    + simpl. rewrite (IH _ b H2); [reflexivity|]. simpl. rewrite find_remove_row by (simpl in H1; congruence). exact Fr.
+    + simpl. rewrite (IH _ b H2); [reflexivity|exact Fr].
+    + simpl. rewrite (IH _ b H2); [reflexivity|exact Fr].
+    + simpl acted. rewrite (IH _ b H2); [reflexivity|].
+      destruct (step_make_cases st k v o n mat l) as [E|[s0 [_ E]]]; rewrite E; [exact Fr|apply reg_keeps_row; exact Fr].
+    + simpl acted. rewrite (IH _ b H2); [reflexivity|].
+      destruct (step_pair_cases st v o n fu mu fr mr lc lu lr) as [E|[su [sr E]]]; rewrite E; [exact Fr|].
+      apply reg_keeps_row. apply reg_keeps_row. exact Fr.
 Qed.
 
 Definition state_after (u : Z) (s : secret) (h : list hop) : Z :=
